@@ -37,6 +37,7 @@ fn pk_from_c5(p: &c5::Packet) -> Pk {
             retain: p.retain,
             alias: p.properties.as_ref().and_then(|x| x.topic_alias),
             topic_empty: p.topic.is_empty(),
+            topic2: &p.topic[..] == b"in/y",
         },
         c5::Packet::PubAck(a) => Pk::PubAck(a.pkid, if a.reason == c5::PubAckReason::Success { 0 } else { 0x80 }),
         c5::Packet::PubRec(a) => Pk::PubRec(a.pkid, if a.reason == c5::PubRecReason::Success { 0 } else { 0x80 }),
@@ -188,9 +189,10 @@ impl Proto for V5 {
                     properties: props,
                 })
             }
-            Pk::Publish { qos, pkid, tag, dup, retain, alias, topic_empty } => {
+            Pk::Publish { qos, pkid, tag, dup, retain, alias, topic_empty, topic2 } => {
                 let props = alias.map(|a| c5::PublishProperties { topic_alias: Some(a), ..Default::default() });
-                let mut p = c5::Publish::new(if *topic_empty { "" } else { "in/x" }, q(*qos), payload(*tag), props);
+                let topic = if *topic_empty { "" } else if *topic2 { "in/y" } else { "in/x" };
+                let mut p = c5::Publish::new(topic, q(*qos), payload(*tag), props);
                 p.pkid = *pkid;
                 p.dup = *dup;
                 p.retain = *retain;
